@@ -434,10 +434,18 @@ func explore(seq []op, b bound, sweepCtxs int) *vlib.Outcome {
 	dfs(nil, 0)
 	out.Counters["pristine_process_spawns"] = pristineSpawns
 	pristineSpawns = 0
-	if out.Violation != "" {
-		out.Class = "violation"
-	} else {
-		out.Class = "ok"
+	// class = the model state the history ends in (vacuity guard: many different end states)
+	st := [2]*engState{{reg: map[string]int{}, cacheOn: true}, {reg: map[string]int{}, cacheOn: true}}
+	for _, o := range seq {
+		switch o.Kind {
+		case "register":
+			st[o.Eng].reg[o.Name] = o.V
+		case "cacheoff":
+			st[o.Eng].cacheOn = false
+		case "cacheon":
+			st[o.Eng].cacheOn = true
+		}
 	}
+	out.Class = st[0].key() + "/" + st[1].key()
 	return out
 }
